@@ -6,12 +6,11 @@ P = {
     "design_ref": "DESIGN.md section 3 C14",
     "sources": ["harness/props/C14.cpp"],
     "ldflags": ["-lyaml-cpp"],
-    "rule": "random trees of depth <= 6 (scalars, nulls, maps, lists, empty maps/lists, nulls inside maps and lists; <= 53 nodes) built through vnaproperty_set/set_subtree or vnacal_property_set/set_subtree with quoted keys (library quoter and an independent one; full paths, relative descriptors on set_subtree anchors, [i] and [+] subscripts, # for nulls, {} and [] for empty collections); keys and scalars are valid UTF-8 constructed from code points (ASCII punctuation, spaces in every position, LF, TAB, CR, other C0 controls except NUL, DEL, C1, NEL, LS/PS, BOM, 2/3-byte BMP, U+FFFE/FFFF, astral) or drawn from a pool of 260 YAML look-alikes (null/bool/number spellings, indicators, quotes, block-scalar headers, document markers, every chomping and indentation situation of multi-line text), text longer than the 80-column fold width, scalars of 15-40 KB (beyond libyaml's 16 KiB buffers), keys longer than 128 and 1024 bytes; oracle: export to an open_memstream FILE* succeeds silently and leaves the tree unchanged, import_yaml_from_string and _from_file (fmemopen) into a fresh root (and, one case in three, into a root with unrelated content: vnaproperty(3) 'replacing any existing content') reproduce the model exactly (kinds, key order, list order, nulls, scalars byte for byte), yaml-cpp reading the same text sees the same tree after un-quoting the keys with an independent implementation of the descriptor key syntax; 30 % of the cases repeat this through vnacal_save/vnacal_load (memfd) for global properties and 5 % also for the properties of a 1x1 T8 calibration; 1 case in 16 also exports to an unwritable FILE* / saves to /dev/full (must return -1 without sanitizer report or leak); non-trivial = tree contains a key needing quoting, a YAML-look-alike scalar, a multi-line scalar or an empty collection; distinct = distinct choice tapes; class histogram per character class separately for keys (key:*) and values (val:*)",
+    "rule": "random trees of depth <= 6 (scalars, nulls, maps, lists, empty maps/lists, nulls inside maps and lists; <= 53 nodes) built through vnaproperty_set/set_subtree or vnacal_property_set/set_subtree with quoted keys (library quoter and an independent one; full paths, relative descriptors on set_subtree anchors, [i] and [+] subscripts, # for nulls, {} and [] for empty collections); keys and scalars are valid UTF-8 constructed from code points (ASCII punctuation, spaces in every position, LF, TAB, CR, other C0 controls except NUL, DEL, C1, NEL, LS/PS, BOM, 2/3-byte BMP, U+FFFE/FFFF, astral) or drawn from a pool of 260 YAML look-alikes (null/bool/number spellings, indicators, quotes, block-scalar headers, document markers, every chomping and indentation situation of multi-line text), text longer than the 80-column fold width, scalars of 15-40 KB (beyond libyaml's 16 KiB buffers), keys longer than 128 and 1024 bytes; oracle: export to an open_memstream FILE* succeeds silently and leaves the tree unchanged, import_yaml_from_string and _from_file (fmemopen) into a fresh root (and, one case in three, into a root with unrelated content: vnaproperty(3) 'replacing any existing content') reproduce the model exactly (kinds, key order, list order, nulls, scalars byte for byte), yaml-cpp reading the same text sees the same tree after un-quoting the keys with an independent implementation of the descriptor key syntax; 50 % of the cases repeat this through vnacal_save/vnacal_load (memfd) for global properties and 20 % also for the properties of a 1x1 T8 calibration; 1 case in 16 also exports to an unwritable FILE* / saves to /dev/full (must return -1 without sanitizer report or leak); non-trivial = tree contains a key needing quoting, a YAML-look-alike scalar, a multi-line scalar or an empty collection; distinct = distinct choice tapes; class histogram per character class separately for keys (key:*) and values (val:*)",
     "assumptions": COMMON_ASSUME + [
         "docmodel.hpp / read_tree() observe the tree only through the public getters of vnaproperty(3)",
         "yaml-cpp 0.7 is a correct YAML 1.2 reader for the documents libyaml emits, except that it decodes the escapes \\N and \\_ to the lone bytes 0x85 / 0xA0; the harness restores exactly those bytes",
         "strings with NUL and byte strings that are not valid UTF-8 are outside the property (C09)",
-        "LeakSanitizer is told to ignore allocations made inside vnacal_new_*/vnacal_add_calibration and inside vnacal_load on the calibration route only (vnacal_free does not release calibrations: finding of C03/C07/C16, not repaired by this check); the global-property route keeps vnacal_load under leak checking",
     ],
     "tiers": tiers(
         quick=[{"name": "rand", "mode": "run", "count": 3000, "max_size": 100, "shards": 12, "max_seconds": 70}],
